@@ -1,9 +1,11 @@
 import PynencModel.Model.Basic
 import PynencModel.Model.Status
 /-
-  L1 model of the orchestrator's status store (what `MemOrchestrator` and `SQLiteOrchestrator`
-  both implement behind `_register_new_invocations`, `_atomic_status_transition`,
-  `get_invocation_status_record`).  Timestamps are integers (µs of the controlled clock).
+  L1 model of the orchestrator: what `MemOrchestrator` and `SQLiteOrchestrator` both implement.
+  Status store (`_register_new_invocations`, `_atomic_status_transition`, `get_invocation_status_record`),
+  task / call / argument indexes (`get_existing_invocations`, `index_arguments_for_concurrency_control`),
+  retries, runner heartbeats (`register_runner_heartbeats`, `_get_active_runners`) and the two recovery scans.
+  Timestamps are integers (µs of the controlled clock).  Core Lean only.
 -/
 namespace Pynenc
 
@@ -20,8 +22,26 @@ inductive SetErr where
   | unknownId        -- KeyError of the base-class contract
   deriving DecidableEq, Repr
 
+/-- what the orchestrator knows about an invocation besides its status -/
+structure InvInfo where
+  task : String
+  call : String
+  args : List (String × String)      -- serialized arguments (key, serialized value)
+  deriving DecidableEq, Repr
+
+structure HB where
+  created  : Int
+  last     : Int
+  eligible : Bool
+  deriving DecidableEq, Repr
+
 structure Orch where
-  recs : AMap String ORec := []
+  recs    : AMap String ORec := []
+  info    : AMap String InvInfo := []
+  /-- argument index: (invocation, key, value) rows written by `index_arguments_for_concurrency_control` -/
+  argIdx  : List (String × String × String) := []
+  retries : AMap String Nat := []
+  hb      : AMap String HB := []
   deriving Repr
 
 namespace Orch
@@ -35,6 +55,11 @@ def register (o : Orch) (id : String) (rid : Option String) (now : Int) : Orch :
   if o.recs.has id then o
   else { o with recs := o.recs.set id { status := .registered, owner := rid, ts := now } }
 
+/-- registration with the task / call / arguments the orchestrator records for its indexes -/
+def registerInv (o : Orch) (id : String) (inf : InvInfo) (rid : Option String) (now : Int) : Orch :=
+  if o.recs.has id then o
+  else { (o.register id rid now) with info := o.info.set id inf, retries := o.retries.set id 0 }
+
 /-- `_atomic_status_transition`: read, validate, write one record; on error nothing changes. -/
 def setStatus (T : Table) (o : Orch) (id : String) (req : Status) (rid : Option String) (now : Int) :
     Orch × Except SetErr ORec :=
@@ -46,6 +71,67 @@ def setStatus (T : Table) (o : Orch) (id : String) (req : Status) (rid : Option 
     | .ok r =>
       let nr : ORec := { status := r.status, owner := r.owner, ts := now }
       ({ o with recs := o.recs.set id nr }, .ok nr)
+
+/-- `index_arguments_for_concurrency_control`: one row per argument (INSERT OR REPLACE / set add) -/
+def indexArgs (o : Orch) (id : String) : Orch :=
+  match o.info.get? id with
+  | none => o
+  | some inf =>
+    let rows := inf.args.map fun (k, v) => (id, k, v)
+    { o with argIdx := o.argIdx.filter (fun r => !(rows.any fun r' => decide (r'.1 = r.1) && decide (r'.2.1 = r.2.1))) ++ rows }
+
+def statusOf (o : Orch) (id : String) : Option Status := (o.get id).map (·.status)
+
+/-- all key/value pairs indexed for `id` -/
+def matchesKey (o : Orch) (id : String) (key : List (String × String)) : Bool :=
+  key.all fun (k, v) => o.argIdx.contains (id, k, v)
+
+/-- `get_existing_invocations(task, key_serialized_arguments, statuses)`; an empty key dict or an empty
+    status list means "no filter" (Python truthiness of `{}` / `[]`), on both backends. -/
+def existing (o : Orch) (task : String) (key : List (String × String)) (statuses : List Status) : List String :=
+  (o.info.filter fun (id, inf) =>
+    decide (inf.task = task) &&
+    (key.isEmpty || o.matchesKey id key) &&
+    (statuses.isEmpty || (match o.statusOf id with | some s => statuses.contains s | none => false))).map (·.1)
+
+def incrRetries (o : Orch) (id : String) : Orch :=
+  { o with retries := o.retries.set id ((o.retries.get? id).getD 0 + 1) }
+
+def getRetries (o : Orch) (id : String) : Nat := (o.retries.get? id).getD 0
+
+/-- `register_runner_heartbeats`: new runners get creation = now; existing ones keep it; last beat and
+    eligibility are overwritten -/
+def heartbeat (o : Orch) (rids : List String) (eligible : Bool) (now : Int) : Orch :=
+  rids.foldl (fun o r =>
+    match o.hb.get? r with
+    | some h => { o with hb := o.hb.set r { h with last := now, eligible := eligible } }
+    | none => { o with hb := o.hb.set r { created := now, last := now, eligible := eligible } }) o
+
+/-- `_get_active_runners`: last beat ≥ now − timeout, optional eligibility filter, oldest creation first -/
+def activeRunners (o : Orch) (now timeout : Int) (elig : Option Bool) : List String :=
+  let act := o.hb.filter fun (_, h) => decide (h.last ≥ now - timeout) && (match elig with | none => true | some e => h.eligible == e)
+  (sortBy (fun a b => decide (a.2.created ≤ b.2.created)) act).map (·.1)
+
+/-- `get_pending_invocations_for_recovery`: PENDING with status timestamp ≤ now − max_pending -/
+def pendingScan (o : Orch) (now maxPending : Int) : List String :=
+  (o.recs.filter fun (_, r) => decide (r.status = .pending) && decide (r.ts ≤ now - maxPending)).map (·.1)
+
+/-- in-memory `_get_running_invocations_for_recovery`: set of runners with a recent beat, then RUNNING
+    records with a truthy owner outside that set -/
+def runningScanMem (o : Orch) (now timeout : Int) : List String :=
+  let active := (o.hb.filter fun (_, h) => decide (h.last ≥ now - timeout)).map (·.1)
+  (o.recs.filter fun (_, r) => decide (r.status = .running) && truthy r.owner &&
+      (match r.owner with | some ow => !active.contains ow | none => false)).map (·.1)
+
+/-- SQLite `_get_running_invocations_for_recovery`: LEFT JOIN heartbeats; owner NOT NULL and
+    (no heartbeat row or last beat < cutoff) -/
+def runningScanSql (o : Orch) (now timeout : Int) : List String :=
+  (o.recs.filter fun (_, r) => decide (r.status = .running) &&
+      (match r.owner with
+       | none => false
+       | some ow => match o.hb.get? ow with
+         | none => true
+         | some h => decide (h.last < now - timeout))).map (·.1)
 
 end Orch
 end Pynenc
